@@ -77,7 +77,7 @@ OneKey(evs) == Len(evs) = 1 /\ evs[1][1] = "key"
 
 \* a decode of a capability / table sequence is right when it is one event for an acceptable key
 DecodeOK(c, seq, evs) ==
-    LET acc == Acceptable(c, seq) IN
+    LET acc == DecodeAcceptable(c, seq) IN
     \/ /\ OneKey(evs) /\ <<evs[1][2], evs[1][4]>> \in acc
        /\ (Len(seq) = 1 => evs[1][3] = seq[1])
     \/ /\ Len(evs) = 1 /\ evs[1][1] = "paste"
